@@ -1780,11 +1780,14 @@ fn end_loc(s: &str) -> Loc {
         Some(index) => {
             // Character count after last newline
             let tail = &bytes[index + 1..];
-            tail.iter().filter(|&&b| (b & 0xC0) != 0x80).count() as u16
+            tail.iter().filter(|&&b| (b & 0xC0) != 0x80).count()
         }
         // No newline exists, use character count
-        None => char_pos as u16,
+        None => char_pos as usize,
     };
+    // Formatting can make a line longer than the lexer accepts.
+    // Stay at the last column rather than wrap around to the first.
+    let col = u16::try_from(col).unwrap_or(u16::MAX);
 
     let byte_pos: u32 = bytes.len() as u32;
 
